@@ -120,6 +120,11 @@ def state_failures(sn, where):
     out = []
     if sn is None or len(sn['f']) == 0:
         return out
+    for nm, label in (('p', 'total power'), ('s', 'signal share'), ('a', 'ASE share'), ('n', 'NLI share')):
+        bad = ~np.isfinite(sn[nm])
+        if bad.any():
+            i = int(np.argmax(bad))
+            return [('nonfinite_state', f'{where}: {label} of channel #{i} is {sn[nm][i]!r}')]
     for nm in ('s', 'a', 'n'):
         v = sn[nm]
         bad = ~((v >= 0) & (v <= 1 + SUM_TOL))     # also catches nan
@@ -247,9 +252,15 @@ def gen_hist(rng, nmax=30, maxops=20, malformed=False):
             style = rng.random()
             ops.append({'op': 'nli', 'style': 'small' if style < 0.8 else ('large' if style < 0.95 else 'all'),
                         'mode': rng.random(), 'zero': rng.random() < 0.05})
-        elif r < 0.91:
+        elif r < 0.89:
             ops.append({'op': 'demux'})
-        elif r < 0.96:
+        elif r < 0.93:
+            # one spectrum feeds two consumers: split it twice with the same band, go on with one copy ...
+            ops.append({'op': 'fork', 'whole': rng.random() < 0.6})
+        elif r < 0.95:
+            # ... and later come back to the other one
+            ops.append({'op': 'switch'})
+        elif r < 0.97:
             ops.append({'op': 'remux', 'nb': rng.randint(1, 3), 'cover': rng.random()})
         else:
             ops.append({'op': 'add', 'where': rng.choice(['above', 'below', 'gap']), 'n': rng.randint(1, 4),
@@ -291,6 +302,7 @@ def make_concrete(rng, case):
     except SpectrumError:
         return {'kind': 'hist', 'chs': case['chs'], 'ops': []}
     out = []
+    sibs = []
     bad, bad_at = case.get('bad'), case.get('bad_at', 0)
     if bad == 'overlap_init' and len(case['chs']) > 1:
         chs = [list(c) for c in case['chs']]
@@ -333,13 +345,17 @@ def make_concrete(rng, case):
             if inject == 'shape' and n > 1:
                 v = v + [v[0]]
             c = {'op': 'nli', 'v': v}
-        elif op == 'demux':
+        elif op in ('demux', 'fork'):
             edges = sorted({float(x) for x in np.concatenate([f - sw / 2, f + sw / 2])})
             lo = rng.choice(edges) - rng.choice([0.0, 0.0, 1e9, -1e9])
             hi = rng.choice([e for e in edges if e >= lo] or [lo]) + rng.choice([0.0, 0.0, 1e9, -1e9])
-            if rng.random() < 0.2:
+            if rng.random() < 0.2 or (op == 'fork' and o['whole']):
                 lo, hi = float(f[0] - sw[0]), float(f[-1] + sw[-1])
             c = {'op': 'demux', 'lo': lo, 'hi': hi}
+            if op == 'fork':
+                c['fork'] = True
+        elif op == 'switch':
+            c = {'op': 'switch'}
         elif op == 'remux':
             edges = sorted({float(x) for x in np.concatenate([f - sw / 2, f + sw / 2])})
             cuts = sorted(rng.sample(edges, min(len(edges), o['nb'] + 1)))
@@ -377,16 +393,27 @@ def make_concrete(rng, case):
         out.append(c)
         # advance the real object so that the next operation is drawn against the right state
         try:
-            si = apply_op(si, c)
+            si = apply_op(si, c, sibs)
         except Exception:
             break
     return {'kind': 'hist', 'chs': case['chs'], 'ops': out}
 
 
-def apply_op(si, c):
-    """one concrete operation on the real object, through the public API only"""
+def apply_op(si, c, sibs=None):
+    """one concrete operation on the real object, through the public API only.  sibs: stack of the spectra that were
+    split off the same parent and are still waiting for their consumer (fork / switch)"""
     from gnpy.core.info import demuxed_spectral_information, muxed_spectral_information
     op = c['op']
+    if op == 'switch':
+        while sibs:
+            s = sibs.pop()
+            if s is not None:
+                return s
+        return si
+    if op == 'demux' and c.get('fork') and sibs is not None:
+        band = {'f_min': c['lo'], 'f_max': c['hi']}
+        sibs.append(demuxed_spectral_information(si, band))
+        return demuxed_spectral_information(si, band)
     if op in ('att_lin', 'att_db', 'gain_lin', 'gain_db'):
         v = np.array(c['v'], dtype=float) if isinstance(c['v'], list) else float(c['v'])
         {'att_lin': si.apply_attenuation_lin, 'att_db': si.apply_attenuation_db,
@@ -417,6 +444,53 @@ def lin_factor(op, v):
     return math.pow(10.0, v / 10.0)
 
 
+def snap_equal(x, y):
+    if x is None or y is None:
+        return x is None and y is None
+    return all(x[k].shape == y[k].shape and np.array_equal(x[k], y[k], equal_nan=True) for k in x)
+
+
+def snap_change(x, y):
+    """first field / channel in which two snapshots of the same object differ"""
+    for k, label in (('f', 'frequency'), ('sw', 'slot width'), ('br', 'baud rate'), ('p', 'total power'),
+                     ('s', 'signal share'), ('a', 'ASE share'), ('n', 'NLI share')):
+        if x[k].shape != y[k].shape:
+            return f'channel count {len(x[k])} -> {len(y[k])}'
+        ne = ~((x[k] == y[k]) | (np.isnan(x[k]) & np.isnan(y[k])))
+        if ne.any():
+            i = int(np.argmax(ne))
+            return f'{label} of channel #{i}: {x[k][i]!r} -> {y[k][i]!r}'
+    return 'changed'
+
+
+class Live:
+    """every SpectralInformation object seen so far with the state it legitimately has: an operation may only change
+    the object it is applied to; whatever else changes (its input after a split, a sibling copy, an operand of a sum,
+    an earlier result) is aliasing"""
+
+    def __init__(self):
+        self.objs = []      # [obj, snapshot, label]
+
+    def set(self, obj, sn, label):
+        if obj is None:
+            return
+        for rec in self.objs:
+            if rec[0] is obj:
+                rec[1] = sn
+                return
+        self.objs.append([obj, sn, label])
+
+    def changed(self, except_obj=None):
+        out = []
+        for obj, sn, label in self.objs:
+            if obj is except_obj:
+                continue
+            now = snap(obj)
+            if not snap_equal(sn, now):
+                out.append(f'{label}: {snap_change(sn, now)}')
+        return out
+
+
 def drive_hist(case):
     """run a concrete history on the real code; returns (init snapshot or 'E:..', steps)"""
     try:
@@ -424,13 +498,28 @@ def drive_hist(case):
     except Exception as e:
         return 'E:' + type(e).__name__, []
     init = snap(si)
+    live = Live()
+    live.set(si, init, 'the initial spectrum')
+    sibs = []
     steps = []
-    for c in case['ops']:
+    for k, c in enumerate(case['ops']):
         before = snap(si)
         rec = {'c': c, 'before': before}
+        if c['op'] == 'switch':
+            rec['nomodel'] = True
+        other = None
         try:
             with np.errstate(all='ignore'):
-                si2 = apply_op(si, c)
+                if c['op'] == 'add':
+                    other = _mk_si(c['other'], c['noise'])
+                    rec['other'] = snap(other)
+                    live.set(other, rec['other'], f'the second operand of op #{k + 1} add')
+                    si2 = si + other
+                else:
+                    nsib = len(sibs)
+                    si2 = apply_op(si, c, sibs)
+                    if len(sibs) > nsib:
+                        live.set(sibs[-1], snap(sibs[-1]), f'the sibling copy made by op #{k + 1} (fork)')
         except Exception as e:
             rec['out'] = 'E:' + type(e).__name__
             rec['exc'] = f'{type(e).__name__}: {e}'
@@ -439,13 +528,36 @@ def drive_hist(case):
         rec['out'] = 'ok'
         rec['after'] = snap(si2)
         rec['si'] = si2
-        if c['op'] == 'add':
-            rec['other'] = snap(_mk_si(c['other'], c['noise']))
+        # aliasing: nothing but the object the operation was applied to / returned may have changed
+        if c['op'] != 'switch':
+            live.set(si2, rec['after'], f'the result of op #{k + 1} {c["op"]}')
+        rec['alias'] = live.changed(except_obj=si2)
+        for obj_rec in live.objs:       # report each corruption once
+            obj_rec[1] = snap(obj_rec[0])
         steps.append(rec)
         si = si2
         if si is None:
             break
     return init, steps
+
+
+def model_steps(steps):
+    """the executed steps the model replays: up to and including the first step that leaves a non-finite state
+    (which cannot enter the exact model), without the bookkeeping steps of the harness (switch)"""
+    out = []
+    for st in steps:
+        if st.get('nomodel'):
+            continue
+        if not snap_finite(st['before']):
+            break
+        out.append(st)
+        if st['out'] == 'ok' and not snap_finite(st['after']):
+            break
+    return out
+
+
+def snap_finite(sn):
+    return sn is None or all(bool(np.all(np.isfinite(sn[k]))) for k in ('f', 'sw', 'br', 'p', 's', 'a', 'n'))
 
 
 def hop_lit(st, chl):
@@ -480,7 +592,10 @@ def hist_term(case, init, steps):
     if isinstance(init, str):
         chs = [(c[0], c[1], c[2], c[3], 1.0, 0.0, 0.0) for c in case['chs']]
         return 'res_s (mk_si ' + listlit([chlit(c) for c in chs]) + ')'
-    if len(init['f']) * len(steps) <= CHAIN_MAX:
+    steps = model_steps(steps)
+    chained = (len(init['f']) * len(steps) <= CHAIN_MAX and not any(o['op'] == 'switch' for o in case['ops'])
+               and all(snap_finite(st.get('after')) for st in steps))
+    if chained:
         return ('run_hist ' + listlit([chlit(x) for x in snap_chs(init)]) + ' '
                 + listlit([hop_lit(st, lambda x: 'ch ' + ' '.join(fql(y) for y in x)) for st in steps]))
     tab = {}
@@ -501,9 +616,11 @@ def hist_term(case, init, steps):
         return names[key]
     prev_after = None
     for st in steps:
-        before = prev_after if prev_after is not None else st['before']
+        before = prev_after if prev_after is not None and snap_equal(prev_after, st['before']) else st['before']
         bname = state_name(before)
-        if st['out'] == 'ok':
+        if st['out'] == 'ok' and not snap_finite(st['after']):
+            ex = 'None'         # a non-finite state cannot enter the model: outcome only (judged by the oracle)
+        elif st['out'] == 'ok':
             ex = f'(Some {state_name(st["after"])})' if st['after'] is not None else '(Some [])'
             prev_after = st['after']
         else:
@@ -517,6 +634,8 @@ def in_scope_step(st):
     """side conditions of the theorems (WfOps) evaluated on what was executed"""
     c, b = st['c'], st['before']
     op = c['op']
+    if not snap_finite(b):
+        return False
     if op in ('att_lin', 'gain_lin'):
         return bool(np.all(np.asarray(c['v'], dtype=float) > 0))
     if op == 'ase':
@@ -538,7 +657,9 @@ def hist_oracle(case, init, steps):
         c = st['c']
         where = f'after op #{k + 1} {c["op"]}'
         scope = scope and in_scope_step(st)
-        if st['out'] != 'ok' or not scope:
+        for d in st.get('alias', []):
+            fails.append(('aliasing', f'{where} changed an object it was not applied to: {d}'))
+        if st['out'] != 'ok' or not scope or c['op'] == 'switch':
             continue
         a, b = st['after'], st['before']
         if a is None:
@@ -608,6 +729,7 @@ def compare_hist(ctx, case, init, steps, line, corr='corr:SI.history'):
             ctx.corr_break(corr, 'constructor outcome differs', jc, impl=init, model=got)
         return 0
     model = canon_hist_model(line)
+    steps = model_steps(steps)
     if len(model) != len(steps):
         ctx.corr_break(corr, f'{len(steps)} steps executed by gnpy, {len(model)} by the model', jc,
                        impl=[s['out'] for s in steps], model=[m[1] if isinstance(m[1], str) else 'ok' for m in model])
@@ -636,6 +758,9 @@ def compare_hist(ctx, case, init, steps, line, corr='corr:SI.history'):
         ncmp += len(rows)
         if m == '=':
             continue
+        if m == 'ok' and not snap_finite(st['after']):
+            ctx.count('hist_nonfinite_state_not_replayed')
+            break
         d = diff_text(m, rows) if isinstance(m, tuple) else spec_diff(rows, m)
         if d:
             ctx.corr_break(corr + '.' + op, f'op #{k + 1} {op}: {d}', jc, impl=rows[:3], model=str(m)[:300])
@@ -837,10 +962,11 @@ def gen_path_case(rng, flavour=None, thorough=False):
     spectrum = None
     if tiny or rng.random() < 0.6 or flavour == 'multiband':
         parts = []
-        bands = [(191.4e12, 195.0e12)] + ([(186.4e12, 190.0e12)] if eq == 'multiband' else [])
+        ggn = method != 'gn_model_analytic'
+        bands = [(191.4e12, 195.0e12)] + ([(186.6e12, 190.0e12)] if eq == 'multiband' else [])
         for (lo, hi) in bands:
             f = lo + rng.randint(0, 20) * 50e9
-            for _ in range(1 if tiny else rng.randint(1, 3)):
+            for k in range(rng.randint(2, 3) if ggn else (1 if tiny else rng.randint(1, 3))):
                 sw, br = rng.choice(SLOTS[:7])
                 nch = rng.randint(1, 4 if tiny else (6 if not thorough else 14))
                 f_min = f + sw / 2
@@ -850,14 +976,32 @@ def gen_path_case(rng, flavour=None, thorough=False):
                 parts.append({'f_min': f_min, 'f_max': f_max, 'slot_width': sw, 'baud_rate': br, 'roll_off': 0.15,
                               'delta_pdb': rng.choice([0, 0, 1, -1.5, 3]), 'tx_osnr': rng.choice([40, 45, 35, 100]),
                               'tx_power_dbm': rng.choice([0, 0, -3, 3, rng.uniform(-10, 10)])})
+                if ggn or rng.random() < 0.25:
+                    # strongly non-uniform powers: neighbouring groups of channels 6 dB apart (pre-emphasis), both in
+                    # the ROADM equalisation offsets and at the transmitter
+                    step = rng.choice([3.0, 3.0, 2.0, 4.5]) * (1 if k % 2 == 0 else -1) * rng.choice([1, 1, -1])
+                    parts[-1]['delta_pdb'] = step
+                    parts[-1]['tx_power_dbm'] = step
                 f = f_max + sw / 2 + rng.choice([0, 0, 50e9, 300e9])
         spectrum = parts or None
     if spectrum is None and tiny:
         method = 'gn_model_analytic'
+    # GGN methods: which channels are computed (the others are interpolated): all, a number of equally spaced ones, or
+    # an explicit short list (1-based), also one that does not reach the edges of the spectrum
+    computed, computed_nb = None, None
+    if method != 'gn_model_analytic' and spectrum:
+        ntot = sum(int(round((q['f_max'] - q['f_min']) / q['slot_width'])) + 1 for q in spectrum)
+        r = rng.random()
+        if r < 0.45 and ntot >= 4:
+            computed = sorted(rng.sample(range(2, ntot), rng.choice([2, 2, 3]) if ntot >= 5 else 2))
+        elif r < 0.6 and ntot >= 3:
+            computed = sorted(rng.sample(range(1, ntot + 1), rng.randint(2, min(4, ntot))))
+        elif r < 0.8 and ntot >= 2:
+            computed_nb = rng.randint(2, min(5, ntot))
     sim = {'raman_params': {'flag': srs, 'result_spatial_resolution': 10e3,
                             'solver_spatial_resolution': rng.choice([50, 100, 200] if thorough else [200, 500])},
            'nli_params': {'method': method, 'dispersion_tolerance': 1, 'phase_shift_tolerance': 0.1,
-                          'computed_channels': None}}
+                          'computed_channels': computed, 'computed_number_of_channels': computed_nb}}
     return {'kind': 'path', 'flavour': flavour, 'eq': eq, 'topo': topo, 'src': src, 'dst': dst, 'spectrum': spectrum,
             'sim': sim, 'power_dbm': rng.choice([None, None, 0, 2, -2, 5]), 'updates': gen_updates(rng)}
 
@@ -875,6 +1019,7 @@ class Tracer:
         self.saved = []
         self.keep = []         # keeps every observed object alive so that id() stays unique
         self.mute = False      # update_snr calls of the harness' own reference receiver are not logged
+        self.live = Live()     # aliasing registry over the element calls
 
     def __enter__(self):
         import gnpy.core.elements as E
@@ -943,6 +1088,7 @@ class Tracer:
                     tr.log = []
                     before = snap(spectral_info)
                     tr.keep.append(spectral_info)
+                    tr.live.set(spectral_info, before, f'the spectrum that entered {type(self_).__name__} {self_.uid}')
                 tr.depth += 1
                 try:
                     res = orig(self_, spectral_info, *a, **kw)
@@ -950,9 +1096,16 @@ class Tracer:
                     tr.depth -= 1
                 if top:
                     tr.keep.append(res)
+                    after = snap(res)
+                    tr.live.set(res, after, f'the spectrum that left {type(self_).__name__} {self_.uid}')
+                    # an element may only change the object it returns: its input (when it returns another object) and
+                    # every spectrum seen earlier on the path must be what they were
+                    alias = tr.live.changed(except_obj=res)
+                    for obj_rec in tr.live.objs:
+                        obj_rec[1] = snap(obj_rec[0])
                     tr.calls.append({'el': self_, 'kind': type(self_).__name__, 'uid': self_.uid, 'in': id(spectral_info),
-                                     'out': id(res), 'before': before, 'after': snap(res), 'log': tr.log,
-                                     'si_out': res})
+                                     'out': id(res), 'before': before, 'after': after, 'log': tr.log,
+                                     'si_out': res, 'alias': alias})
                     tr.log = []
                 return res
             tr.saved.append((cls, '__call__', orig))
@@ -1316,6 +1469,10 @@ def prim_factor(e):
     return arg
 
 
+def alias_failures(call):
+    return [('aliasing', f'{call["kind"]} {call["uid"]} changed a spectrum it does not return: {d}') for d in call.get('alias', [])]
+
+
 def path_oracle_c01(res):
     """C01 on the per-element and per-update observations of a propagated path"""
     fails = []
@@ -1323,6 +1480,7 @@ def path_oracle_c01(res):
     #                     exactly at a fibre's zero-dispersion frequency makes the GN closed form 0/0) the rest is not judged
     for c in res['calls']:
         where = f'after {c["kind"]} {c["uid"]}'
+        fails += alias_failures(c)
         for k, e in enumerate(c['log']):
             if e['op'] not in PRIM_KIND or 'a' not in e:
                 continue
@@ -1433,6 +1591,10 @@ def process_path(ctx, case, path_oracle_fn, sample_k, terms, meta):
     ctx.count('path_cases')
     ctx.count('path_flavour_' + case['flavour'])
     ctx.count('path_nli_' + case['sim']['nli_params']['method'])
+    nlp = case['sim']['nli_params']
+    if nlp['method'] != 'gn_model_analytic':
+        ctx.count('path_ggn_computed_' + ('list' if nlp.get('computed_channels') else
+                                          'number' if nlp.get('computed_number_of_channels') else 'all'))
     ctx.count('path_raman_flag_' + str(bool(case['sim']['raman_params']['flag'])))
     ctx.count('path_elements', len(res['calls']))
     ctx.count('path_channels', len(res['si'].frequency))
@@ -1452,10 +1614,16 @@ def process_path(ctx, case, path_oracle_fn, sample_k, terms, meta):
     if res.get('out_of_scope'):
         ctx.count('path_out_of_scope_nli_above_channel_power_or_nan')
     for c in res['calls']:
+        if not (snap_finite(c['before']) and snap_finite(c['after'])
+                and all(bool(np.all(np.isfinite(e['arg']))) for e in c['log'] if 'arg' in e)):
+            # a non-finite power / share (judged by the oracle when in scope) cannot enter the exact model
+            ctx.count('elem_nonfinite_not_replayed')
+            continue
         try:
             term, exp, prob, summ = elem_term(rng, c, sample_k)
-        except ValueError:      # a non-finite power / share (judged by the oracle) cannot enter the exact model
-            ctx.count('elem_nonfinite_not_replayed')
+        except Exception as e:
+            ctx.count('elem_term_not_built_' + type(e).__name__)
+            ctx.corr_break('corr:harness.term_construction', f'{c["kind"]} {c["uid"]}: {type(e).__name__}: {e}', jcase(case))
             continue
         terms.append(term)
         meta.append(('elem', case, c, exp, prob, summ))
@@ -1463,8 +1631,8 @@ def process_path(ctx, case, path_oracle_fn, sample_k, terms, meta):
         for (term, uid, i, raw, rep) in trx_terms(rng, res, 3):
             terms.append(term)
             meta.append(('trx', case, uid, i, raw, rep))
-    except ValueError:
-        ctx.count('trx_nonfinite_not_replayed')
+    except Exception as e:
+        ctx.count('trx_nonfinite_not_replayed' if isinstance(e, ValueError) else 'trx_term_not_built_' + type(e).__name__)
     ctx.count('update_snr_calls', len(res['updates']))
     return True
 
@@ -1493,7 +1661,13 @@ def run_all(ctx, prop, hist_oracle_fn, path_oracle_fn, sample_k, n_hist, n_bad, 
             ctx.case(jcase(case), len(set(ops)) >= 3)
             for key, desc in hist_oracle_fn(case, init, steps):
                 ctx.violation(key, desc, jcase(case))
-            terms.append(hist_term(case, init, steps))
+            try:
+                term = hist_term(case, init, steps)
+            except Exception as e:      # never an exception out of the machinery: reported as a broken tie
+                ctx.count('hist_term_not_built_' + type(e).__name__)
+                ctx.corr_break('corr:harness.term_construction', f'{type(e).__name__}: {e}', jcase(case))
+                continue
+            terms.append(term)
             meta.append(('hist', case, init, steps))
         else:
             process_path(ctx, case, path_oracle_fn, sample_k, terms, meta)
